@@ -148,6 +148,27 @@ def extra_expressions(rng, n):
     out = ["Literal['a|b', 'x[y]'] | None", "Annotated[int | str, 'm|n']", "typing.Callable[[int | str], dict]",
            "typing.Callable[..., list | None]", "dict[str, list[int | None]] | None", "1 + 2", "f(x)", "a.b.c",
            "Pattern | None", "tuple[int | str, ...]", "Foo[int | None, dict]", "x + y * 2", "int", "typing.Dict[str, int]"]
+    leaves = ["int", "str", "None", "dict", "list", "tuple", "set", "Foo", "m.Foo", "'F|wd'", "...", "Pattern"]
+    heads = ["list", "dict", "tuple", "set", "Foo", "Annotated", "typing.Callable", "typing.Optional", "typing.Union",
+             "Literal", "typing.Dict", "m.Foo"]
+
+    def gen(d):
+        r = rng.random()
+        if d == 0 or r < 0.2:
+            return rng.choice(leaves)
+        if r < 0.45:
+            return f"{gen(d - 1)} | {gen(d - 1)}"
+        h = rng.choice(heads)
+        if h == "Annotated":
+            return f"Annotated[{gen(d - 1)}, 'meta|x']"
+        if h == "typing.Callable":
+            return f"typing.Callable[[{gen(d - 1)}, {gen(d - 1)}], {gen(d - 1)}]"
+        if h == "Literal":
+            return "Literal['a|b', 'x[y]']"
+        k = rng.randint(1, 3)
+        return f"{h}[{', '.join(gen(d - 1) for _ in range(k))}]"
+    for _ in range(n * 4):
+        out.append(gen(rng.randint(2, 5)))
     for _ in range(n):
         k = rng.randint(2, 5)
         parts = [rng.choice(names) for _ in range(k)]
